@@ -57,5 +57,8 @@ def run(P, R, L):
     ord5_manifest_before_current(P, R, L)
     R.clause("GRD-18", "short reads are noticed: outside the file-system layer every read is read_exact or has its byte count compared with the expected length")
     K.grd18_short_reads(P, R, L)
+    R.clause("ORD-4", "CURRENT is replaced by writing a temp file and renaming it: a torn pointer write never leaves a truncated CURRENT behind")
+    from .c02 import ord4_current_switch
+    ord4_current_switch(P, R, L)
     K.bundle_recovery(P, R, L)
     R.not_decided += ["offset arithmetic of LogWriter::new(is_appending = true)", "records appended inside a torn block"]
